@@ -1254,7 +1254,7 @@ func ruleOffGuard(c *Ctx) {
 		for _, b := range fn.Blocks {
 			for _, in := range b.Instrs {
 				sl, ok := in.(*ssa.Slice)
-				if !ok || sl.High == nil || sl.Low != nil {
+				if !ok || sl.High == nil {
 					continue
 				}
 				_, p, okp := pathStr(sl.X)
@@ -1266,6 +1266,11 @@ func ruleOffGuard(c *Ctx) {
 				}
 				key := fnName(fn) + ":literals-slice"
 				ok2 := fi.proveAt(fi.lin(sl.High).sub(fi.lenOf(sl.X)), b, nil)
+				if sl.Low != nil {
+					// cursor form Literals[l:l+LitLen]: the cursor is within the slice as well
+					lo := fi.lin(sl.Low)
+					ok2 = ok2 && fi.proveAt(lo.sub(fi.lin(sl.High)), b, nil) && (c.nonneg(sl.Low) || fi.proveAt(lo.scale(-1), b, nil))
+				}
 				c.check(ok2, key, sl.Pos(), "Literals[:LitLen] is dominated by LitLen ≤ len(Literals)",
 					"Literals[:"+fi.lin(sl.High).String()+"] is not dominated by a rejection of LitLen > len(remaining literals)")
 			}
@@ -1718,6 +1723,89 @@ func (c *Ctx) classifyErrors(fn *ssa.Function) map[string]string {
 	return out
 }
 
+// errorSubjects: for every error label returned by fn, what the deciding guards measure: "sequence" (LitLen /
+// MatchLen of a sequence), "literals" (the length of a literal run), "match" (an integer parameter). It names the
+// origin of an error in obligation keys, so that the same error raised for a new reason is a new finding.
+func (c *Ctx) errorSubjects(fn *ssa.Function) map[string][]string {
+	fi := c.info(fn)
+	sets := map[string]map[string]bool{}
+	var walk func(v ssa.Value, depth int, into map[string]bool)
+	walk = func(v ssa.Value, depth int, into map[string]bool) {
+		if depth > 8 {
+			return
+		}
+		switch x := v.(type) {
+		case *ssa.Convert:
+			walk(x.X, depth+1, into)
+		case *ssa.ChangeType:
+			walk(x.X, depth+1, into)
+		case *ssa.BinOp:
+			walk(x.X, depth+1, into)
+			walk(x.Y, depth+1, into)
+		case *ssa.Phi:
+			for _, e := range x.Edges {
+				if e != ssa.Value(x) {
+					walk(e, depth+1, into)
+				}
+			}
+		case *ssa.Parameter:
+			if isIntType(x.Type()) {
+				into["match"] = true
+			}
+		case *ssa.Field:
+			if f := x.X.Type().Underlying().(*types.Struct).Field(x.Field); f.Name() == "LitLen" || f.Name() == "MatchLen" {
+				into["sequence"] = true
+			}
+		case *ssa.UnOp:
+			if x.Op == token.MUL {
+				if _, p, ok := pathStr(x.X); ok {
+					switch lastField(p) {
+					case "LitLen", "MatchLen":
+						into["sequence"] = true
+					}
+				}
+			}
+		case *ssa.Call:
+			if bi, ok := x.Call.Value.(*ssa.Builtin); ok && bi.Name() == "len" {
+				if _, p, ok := pathStr(x.Call.Args[0]); ok && lastField(p) == "Literals" {
+					into["literals"] = true
+				} else if isByteSlice(x.Call.Args[0].Type()) {
+					if _, isPar := x.Call.Args[0].(*ssa.Parameter); isPar {
+						into["bytes"] = true
+					}
+				}
+			}
+		}
+	}
+	for b, g := range c.errExitBlocks(fi) {
+		if sets[g] == nil {
+			sets[g] = map[string]bool{}
+		}
+		for _, conds := range fi.waysInto(b) {
+			if len(conds) > 2 {
+				conds = conds[:2]
+			}
+			for _, cd := range conds {
+				cd = unNot(cd)
+				if bo, ok := cd.V.(*ssa.BinOp); ok {
+					walk(bo.X, 0, sets[g])
+					walk(bo.Y, 0, sets[g])
+				}
+			}
+		}
+	}
+	out := map[string][]string{}
+	for g, set := range sets {
+		var l []string
+		for k := range set {
+			l = append(l, k)
+		}
+		sort.Strings(l)
+		out[g] = l
+	}
+	return out
+}
+
 // mentionsValidity: the value is computed from a sequence's Offset or from
 // len(Literals) alone (not from LitLen+MatchLen vs sizes).
 func mentionsValidity(v ssa.Value, depth int) bool {
@@ -1880,6 +1968,9 @@ func ruleCapErr(c *Ctx) {
 							continue
 						}
 						key := fmt.Sprintf("%s:%s-escapes", fnName(fn), g)
+						if subj := c.errorSubjects(callee)[g]; len(subj) > 0 {
+							key += "(" + strings.Join(subj, ",") + ")"
+						}
 						// excluded by err != G on this way (the test may be on the merged variable)
 						excluded := false
 						for _, cd := range conds {
